@@ -2776,3 +2776,246 @@ func c18AccumulatorCarry(c *Ctx, pk *packages.Package) {
 		c.Fail(rule, "anchor", token.NoPos, "no accumulated override literal found in bufimagemodify")
 	}
 }
+
+// c20ExitCodeSurvives (EXIT-CODE-SURVIVES): "a missing import exits 100" is implemented by wrapping the error in an
+// exit-code carrier (app.WrapError(100, …)) inside the CLI's last error decorator and reading the code back with
+// errors.As at exit. Everything applied to the carrier after that must keep it on the error chain: a module function
+// it is passed to returns fmt.Errorf with %w for that argument (recursively), a direct fmt.Errorf uses %w for it, or it
+// is returned as it is. `%v` prints the same text and silently turns exit status 100 into 1.
+func c20ExitCodeSurvives(c *Ctx) {
+	const rule = "EXIT-CODE-SURVIVES"
+	c.Rule(rule, "an exit-code carrier stays on the error chain until it is returned", 1)
+	p := c.P
+	pk := p.Pkg("private/buf/cmd/buf")
+	if pk == nil {
+		c.Fail(rule, "anchor", token.NoPos, "cmd/buf not found")
+		return
+	}
+	// verbs of a constant format, in argument order (explicit [n] indexes are honoured)
+	verbFor := func(format string, argIdx int) string {
+		arg := 0
+		for i := 0; i < len(format); i++ {
+			if format[i] != '%' {
+				continue
+			}
+			i++
+			if i < len(format) && format[i] == '%' {
+				continue
+			}
+			cur := arg
+			for i < len(format) && strings.ContainsRune("+-# 0123456789.[]*", rune(format[i])) {
+				if format[i] == '[' {
+					j := strings.IndexByte(format[i:], ']')
+					if j > 0 {
+						var k int
+						fmt.Sscanf(format[i+1:i+j], "%d", &k)
+						cur = k - 1
+						i += j
+					}
+				}
+				i++
+			}
+			if i < len(format) {
+				if cur == argIdx {
+					return string(format[i])
+				}
+				arg = cur + 1
+			}
+		}
+		return ""
+	}
+	var keeps func(v ssa.Value, depth int) (bool, string)
+	keeps = func(v ssa.Value, depth int) (bool, string) {
+		// every use of v must keep it on the chain
+		for _, ref := range *v.Referrers() {
+			switch x := ref.(type) {
+			case *ssa.DebugRef, *ssa.Return:
+				continue
+			case *ssa.Phi:
+				if ok, why := keeps(x, depth); !ok {
+					return false, why
+				}
+			case *ssa.MakeInterface:
+				if ok, why := keeps(x, depth); !ok {
+					return false, why
+				}
+			case *ssa.ChangeInterface:
+				if ok, why := keeps(x, depth); !ok {
+					return false, why
+				}
+			case *ssa.Store:
+				// stored into a varargs array handled at the Slice/call below, or into a local cell
+				if ia, ok := x.Addr.(*ssa.IndexAddr); ok {
+					if al, ok := ia.X.(*ssa.Alloc); ok {
+						for _, r2 := range *al.Referrers() {
+							if sl, ok := r2.(*ssa.Slice); ok {
+								if ok2, why := keepsVariadic(sl, ia, verbFor); !ok2 {
+									return false, why
+								}
+							}
+						}
+					}
+				}
+			case *ssa.Call:
+				callee := x.Call.StaticCallee()
+				if callee == nil {
+					continue // errors.As(err, &x) and friends take it as a reader
+				}
+				if callee.Pkg != nil && strings.HasPrefix(callee.Pkg.Pkg.Path(), modPath) && callee.Blocks != nil && depth < 3 {
+					for i, a := range x.Call.Args {
+						if a == v && i < len(callee.Params) && isErrorType(callee.Signature.Results().At(callee.Signature.Results().Len()-1).Type()) {
+							if ok, why := keeps(callee.Params[i], depth+1); !ok {
+								return false, why
+							}
+						}
+					}
+				}
+			}
+		}
+		return true, ""
+	}
+	n := 0
+	for _, sf := range p.SSAFuncsOf([]*packages.Package{pk}) {
+		for _, call := range callsIn(sf) {
+			if !calleeIs(staticCalleeObj(call.Call), "private/pkg/app", "WrapError") {
+				continue
+			}
+			cv, ok := call.Value.(*ssa.Call)
+			if !ok {
+				continue
+			}
+			n++
+			ok2, why := keeps(cv, 0)
+			c.Ob(rule, fmt.Sprintf("%s/carrier#%d", sf.Name(), n), call.Pos(), ok2, true, "the exit-code carrier reaches the caller on the error chain: %v %s", ok2, why)
+		}
+	}
+	if n == 0 {
+		c.Fail(rule, "anchor", token.NoPos, "no app.WrapError call in cmd/buf")
+	}
+}
+
+// keepsVariadic: the value stored at ia of the variadic array sliced by sl is formatted with %w by the fmt.Errorf that
+// receives the slice.
+func keepsVariadic(sl *ssa.Slice, ia *ssa.IndexAddr, verbFor func(string, int) string) (bool, string) {
+	idx := 0
+	if k, ok := ia.Index.(*ssa.Const); ok && k.Value != nil {
+		fmt.Sscanf(k.Value.ExactString(), "%d", &idx)
+	}
+	for _, ref := range *sl.Referrers() {
+		call, ok := ref.(*ssa.Call)
+		if !ok {
+			continue
+		}
+		fn := staticCalleeObj(&call.Call)
+		if fn == nil || fn.Pkg() == nil || fn.Pkg().Path() != "fmt" || fn.Name() != "Errorf" {
+			continue
+		}
+		k, ok := call.Call.Args[0].(*ssa.Const)
+		if !ok || k.Value == nil {
+			return false, "fmt.Errorf with a non-constant format"
+		}
+		format := strings.Trim(k.Value.ExactString(), "\"")
+		if v := verbFor(format, idx); v != "w" {
+			return false, "formatted with %" + v + " instead of %w"
+		}
+	}
+	return true, ""
+}
+
+// c20GroupingKeepsOrder (GROUPING-KEEPS-ORDER): every format prints "the same annotations in the same order"; the
+// order is fixed once, by the annotation set's sort. A printer that needs groups (JUnit: one testsuite per file) must
+// form them in order of first appearance in that sorted slice. Re-deriving an order inside the grouping function -
+// ranging over a map, or sorting the group keys as strings - disagrees with the set's order as soon as the keys do
+// not sort like the annotations do ("<input>" for file-less annotations, external paths starting with "../").
+// In bufanalysis, the function that turns []FileAnnotation into [][]FileAnnotation contains no map range and no
+// sorting call.
+func c20GroupingKeepsOrder(c *Ctx) {
+	const rule = "GROUPING-KEEPS-ORDER"
+	c.Rule(rule, "annotation groups are formed in order of first appearance, without re-sorting", 1)
+	p := c.P
+	pk := p.Pkg("private/bufpkg/bufanalysis")
+	if pk == nil {
+		c.Fail(rule, "anchor", token.NoPos, "bufanalysis not found")
+		return
+	}
+	info := pk.TypesInfo
+	n := 0
+	for _, fr := range p.FuncsOf(pk) {
+		if fr.Decl.Body == nil || fr.Decl.Type.Results == nil || len(fr.Decl.Type.Results.List) != 1 || fr.Decl.Type.Params == nil {
+			continue
+		}
+		rt, ok := info.TypeOf(fr.Decl.Type.Results.List[0].Type).(*types.Slice)
+		if !ok {
+			continue
+		}
+		inner, ok := rt.Elem().(*types.Slice)
+		if !ok || namedName(inner.Elem()) != "FileAnnotation" {
+			continue
+		}
+		n++
+		mapRanges, sorts := 0, 0
+		ast.Inspect(fr.Decl.Body, func(m ast.Node) bool {
+			switch x := m.(type) {
+			case *ast.RangeStmt:
+				if _, isMap := info.TypeOf(x.X).Underlying().(*types.Map); isMap {
+					mapRanges++
+				}
+			case *ast.CallExpr:
+				if fn := Callee(info, x); fn != nil && callSorts(p, fn, 2) {
+					sorts++
+				}
+			}
+			return true
+		})
+		c.Ob(rule, declName(fr.Decl), fr.Decl.Pos(), mapRanges == 0 && sorts == 0, true, "groups follow the order of the (already sorted) input: %d map ranges, %d sorting calls in the grouping function", mapRanges, sorts)
+	}
+	if n == 0 {
+		c.Fail(rule, "anchor", token.NoPos, "no []FileAnnotation -> [][]FileAnnotation grouping function found")
+	}
+}
+
+// c19ProviderStateless (PROVIDER-STATELESS): one token provider serves every registry address of a process, from
+// concurrent requests. Its RemoteToken(address) must be a function of the address and of immutable configuration: a
+// method that writes to its receiver (a "last address / last token" memo) can pair host B with the token just looked
+// up for host A when two requests overlap - a credential configured for one host goes to another. On SSA: no
+// RemoteToken method of package bufconnect (nor a package function it calls with its receiver) stores into a field of
+// the receiver.
+func c19ProviderStateless(c *Ctx) {
+	const rule = "PROVIDER-STATELESS"
+	c.Rule(rule, "token lookups keep no per-call state on the provider", 3)
+	p := c.P
+	pk := p.Pkg("private/bufpkg/bufconnect")
+	if pk == nil {
+		c.Fail(rule, "anchor", token.NoPos, "bufconnect not found")
+		return
+	}
+	for _, sf := range p.SSAFuncsOf([]*packages.Package{pk}) {
+		if sf.Name() != "RemoteToken" || sf.Signature.Recv() == nil || len(sf.Params) == 0 {
+			continue
+		}
+		var written []string
+		for _, f := range reachSSA(sf, 2) {
+			if f.Pkg == nil || f.Pkg.Pkg != pk.Types || len(f.Params) == 0 {
+				continue
+			}
+			for _, b := range f.Blocks {
+				for _, ins := range b.Instrs {
+					st, ok := ins.(*ssa.Store)
+					if !ok {
+						continue
+					}
+					fa, ok := st.Addr.(*ssa.FieldAddr)
+					if !ok {
+						continue
+					}
+					// a field of a receiver of the same type as the provider
+					if types.Identical(fa.X.Type(), sf.Params[0].Type()) {
+						st2 := fa.X.Type().Underlying().(*types.Pointer).Elem().Underlying().(*types.Struct)
+						written = append(written, st2.Field(fa.Field).Name())
+					}
+				}
+			}
+		}
+		c.Ob(rule, ssaFuncName(sf), sf.Pos(), len(written) == 0, true, "RemoteToken writes no field of its provider: %v %v", len(written) == 0, written)
+	}
+}
